@@ -355,6 +355,11 @@ class _Beam(_IModel):
         u = simu._Get_u_n(simu.problemType, asCsrMatrix=True)
         integral = (u.T @ f)[0, 0]
         kappa = bending_inertia**2 / (section.area * integral)
+
+        # the temporary simulation must not stay attached to the section: it holds local
+        # functions, so the beam (and every simulation using it) could no longer be pickled
+        section._Remove_observer(simu)
+
         return kappa
 
 
